@@ -753,6 +753,54 @@ func (c *Ctx) inmemBoundedPark(r *inmemRoles, rule string) {
 			return
 		}
 		n++
+		// nilIffNoExpiry: a timer (pointer) variable that is nil exactly on the paths where the record has no expiration:
+		// phi over nil (under ExpiresAt == nil, or under another such variable being nil) and timers built from the expiry
+		var nilIffNoExpiry func(x ssa.Value, depth int) bool
+		nilIffNoExpiry = func(x ssa.Value, depth int) bool {
+			phi, ok := x.(*ssa.Phi)
+			if !ok || depth > 3 {
+				return false
+			}
+			// the expiration itself handed through result variables: every non-nil alternative is the ExpiresAt field
+			if _, isTimePtr := phi.Type().(*types.Pointer); isTimePtr && ir.IsNamed(phi.Type(), "time", "Time") {
+				n := 0
+				for _, e := range phi.Edges {
+					if ir.IsNilConst(e) {
+						continue
+					}
+					if ir.LoadedField(e) != r.recExpires && !nilIffNoExpiry(e, depth+1) {
+						return false
+					}
+					n++
+				}
+				return n > 0
+			}
+			for i, e := range phi.Edges {
+				pred := phi.Block().Preds[i]
+				if ir.IsNilConst(e) {
+					g := hasFactCmp(pred, func(cm ir.Cmp) bool {
+						isExp := func(v ssa.Value) bool { return ir.LoadedField(v) == r.recExpires || nilIffNoExpiry(v, depth+1) }
+						return cm.Op == token.EQL && ((isExp(cm.X) && ir.IsNilConst(cm.Y)) || (isExp(cm.Y) && ir.IsNilConst(cm.X)))
+					})
+					if !g {
+						if ef := ir.EdgeFact(pred, phi.Block()); ef != nil {
+							if cm, isCmp := ef.Cmp(); isCmp && cm.Op == token.EQL {
+								isExp := func(v ssa.Value) bool { return ir.LoadedField(v) == r.recExpires || nilIffNoExpiry(v, depth+1) }
+								g = (isExp(cm.X) && ir.IsNilConst(cm.Y)) || (isExp(cm.Y) && ir.IsNilConst(cm.X))
+							}
+						}
+					}
+					if !g {
+						return false
+					}
+					continue
+				}
+				if !durationFromExpiry(e, r.recExpires, 0) {
+					return false
+				}
+			}
+			return true
+		}
 		okTimer, detail := false, "the parked waiter has no case that fires when the record expires: after the holder of a lease dies the waiter never returns"
 		for _, st := range sel.States {
 			if st.Dir != types.RecvOnly {
@@ -765,6 +813,7 @@ func (c *Ctx) inmemBoundedPark(r *inmemRoles, rule string) {
 			// ch = phi(nil, timer.C) : every nil operand must arrive under ExpiresAt == nil
 			nilOK := true
 			derived := false
+			var to *ssa.BasicBlock
 			var visit func(v ssa.Value, from *ssa.BasicBlock, depth int)
 			visit = func(v ssa.Value, from *ssa.BasicBlock, depth int) {
 				if depth > 4 {
@@ -772,7 +821,7 @@ func (c *Ctx) inmemBoundedPark(r *inmemRoles, rule string) {
 				}
 				if ir.IsNilConst(v) {
 					guarded := from != nil && hasFactCmp(from, func(cm ir.Cmp) bool {
-						isExp := func(x ssa.Value) bool { return ir.LoadedField(x) == r.recExpires }
+						isExp := func(x ssa.Value) bool { return ir.LoadedField(x) == r.recExpires || nilIffNoExpiry(x, 0) }
 						return cm.Op == token.EQL && ((isExp(cm.X) && ir.IsNilConst(cm.Y)) || (isExp(cm.Y) && ir.IsNilConst(cm.X)))
 					})
 					if !guarded && from != nil {
@@ -780,6 +829,16 @@ func (c *Ctx) inmemBoundedPark(r *inmemRoles, rule string) {
 						for _, s := range from.Succs {
 							if r.expiryEdge(from, s) == noExpiryEdge {
 								guarded = true
+							}
+						}
+						if to != nil {
+							if ef := ir.EdgeFact(from, to); ef != nil {
+								if cm, isCmp := ef.Cmp(); isCmp && cm.Op == token.EQL {
+									isExp := func(x ssa.Value) bool { return ir.LoadedField(x) == r.recExpires || nilIffNoExpiry(x, 0) }
+									if (isExp(cm.X) && ir.IsNilConst(cm.Y)) || (isExp(cm.Y) && ir.IsNilConst(cm.X)) {
+										guarded = true
+									}
+								}
 							}
 						}
 					}
@@ -790,7 +849,10 @@ func (c *Ctx) inmemBoundedPark(r *inmemRoles, rule string) {
 				}
 				if p, ok := v.(*ssa.Phi); ok {
 					for i, e := range p.Edges {
+						saved := to
+						to = p.Block()
 						visit(e, p.Block().Preds[i], depth+1)
+						to = saved
 					}
 					return
 				}
@@ -842,12 +904,17 @@ func durationFromExpiry(v ssa.Value, exp *types.Var, depth int) bool {
 		return durationFromExpiry(x.Tuple, exp, depth+1)
 	case *ssa.Phi:
 		// a clamped / adjusted duration: every alternative derives from the expiry
+		n := 0
 		for _, e := range x.Edges {
+			if ir.IsNilConst(e) {
+				continue // "no timer": whether nil arrives only without an expiration is checked where it is used
+			}
 			if !durationFromExpiry(e, exp, depth+1) {
 				return false
 			}
+			n++
 		}
-		return len(x.Edges) > 0
+		return n > 0
 	}
 	return false
 }
